@@ -423,7 +423,7 @@ class SimTransport(transports._FlowControlMixin, transports.Transport):
 
 class _Pipe:
     """One direction of a connection: bytes written but not yet arrived at the receiver."""
-    __slots__ = ("src", "dst", "buf", "fin", "delivered", "label", "cut_at", "cut_kind", "dead")
+    __slots__ = ("src", "dst", "buf", "fin", "delivered", "label", "cut_at", "cut_kind", "dead", "stall_at", "stall_for", "hold_until")
 
     def __init__(self, label):
         self.src = None
@@ -435,6 +435,9 @@ class _Pipe:
         self.cut_at = None     # absolute stream offset at which the connection is cut
         self.cut_kind = None   # 'fin' | 'rst'
         self.dead = False
+        self.stall_at = None   # absolute stream offset after which the path goes silent for stall_for virtual seconds
+        self.stall_for = 0.0
+        self.hold_until = None  # virtual time before which nothing more of this direction arrives
 
 
 class _Conn:
@@ -470,6 +473,7 @@ class SimNet:
         self.cut_plans = []           # callables(conn) -> None, applied to new connections
         self.on_deliver = None
         world.pseudo_sources.append(self._enabled)
+        world.timer_sources.append(self._next_release)
 
     # ---- listeners --------------------------------------------------------
     def listen(self, port, loop, factory, server, sock):
@@ -590,6 +594,17 @@ class SimNet:
             # data arriving for a closed socket is answered with RST (handled in _arrive)
             tr.rx.clear()
 
+    def _next_release(self):
+        """earliest end of a stall (a timer source of the world: virtual time may jump to it)"""
+        t = None
+        for conn in self.conns:
+            if conn.state != "open":
+                continue
+            for p in conn.pipes:
+                if p.hold_until is not None and not p.dead and (p.buf or p.fin) and (t is None or p.hold_until < t):
+                    t = p.hold_until
+        return t
+
     def _enabled(self):
         ev = []
         for item in self.pending_connects:
@@ -600,6 +615,10 @@ class SimNet:
             for p in conn.pipes:
                 if p.dead or p.dst is None:
                     continue
+                if p.hold_until is not None:
+                    if self.world.now < p.hold_until:
+                        continue          # the path is silent: nothing arrives, nothing is lost
+                    p.hold_until = None
                 if p.buf or p.fin:
                     ev.append((f"arrive {p.label}", lambda p=p, conn=conn: self._arrive(conn, p)))
         return ev
@@ -628,6 +647,16 @@ class SimNet:
         dst = p.dst
         if p.buf:
             n = self._frag_len(len(p.buf))
+            if p.stall_at is not None and p.delivered <= p.stall_at < p.delivered + len(p.buf):
+                # deliver up to the stall position, then silence for a while (a congested or re-routing path, a peer
+                # that was descheduled in the middle of a write): TCP delays, it does not lose
+                n = min(n, p.stall_at - p.delivered) if p.stall_at > p.delivered else 0
+                if n == 0:
+                    p.hold_until = self.world.now + p.stall_for
+                    p.stall_at = None
+                    self.stats["net_stall"] += 1
+                    self.world.note(f"net stall {p.label} {p.stall_for}")
+                    return
             if p.cut_at is not None and p.delivered + n >= p.cut_at:
                 n = p.cut_at - p.delivered
                 frag = bytes(p.buf[:n])
